@@ -409,3 +409,7 @@ async fn get_storage_instance(
 
     Ok(storage)
 }
+
+#[cfg(feature = "verif")]
+#[path = "../verif/persistence_hooks.rs"]
+pub(crate) mod verif_hooks;
